@@ -377,6 +377,22 @@ FAULT_POSITIONS = ("vars", "action", "input", "items", "conc", "delay", "retry_w
                    "when", "publish", "output")
 
 
+def multi_ref_family():
+    """Definitions inspection must reject with SEVERAL entries for one variable: different expressions in
+    one mapping (task input), in one publish list and in vars refer to a name nothing assigns.  The order
+    of the report entries must not depend on the interpreter (C19)."""
+    out = []
+    t1 = T(next=[dict(when="succeeded", pub=[["y", "ctx:zz"], ["w", "inc:zz"]], do=["t2"])])
+    t1["inputxx"] = ["ctx:zz", "inc:zz", "ctx:zz", "inc:zz"]
+    t2 = T()
+    t2["inputxx"] = ["inc:zz", "ctx:zz"]
+    out.append(D.wf("multi_ref_input", {"t1": t1, "t2": t2}, vars=[["x", 0]], output=[["ox", "ctx:x"]]))
+    t1 = T(next=[dict(when="succeeded", pub=[["y", "ctx:zz"], ["w", "inc:zz"]], do=["t2"])])
+    out.append(D.wf("multi_ref_publish", {"t1": t1, "t2": T()}, vars=[["x", 0], ["u", "ctx:zz"], ["v", "inc:zz"]],
+                    output=[["ox", "ctx:zz"], ["oy", "inc:zz"]]))
+    return out
+
+
 def fault_family(kinds=("undef", "key", "type", "func"), positions=FAULT_POSITIONS):
     """Host shapes with exactly one failing expression position (DESIGN.md 6 C11)."""
     A = ["s", "f"]
